@@ -272,11 +272,15 @@ func decodeValue(dec valueDecoder, param string, sm *openapi3.SerializationMetho
 		var value any
 		var err error
 		for _, sr := range schema.Value.AllOf {
-			var f bool
-			value, f, err = decodeValue(dec, param, sm, sr, required)
+			v, f, e := decodeValue(dec, param, sm, sr, required)
 			found = found || f
-			if value == nil || err != nil {
-				break
+			if e != nil {
+				return nil, found, e
+			}
+			// a member that does not say how the text is to be read (no type: only constraints)
+			// leaves the value decoded by the other members as it is
+			if v != nil {
+				value = v
 			}
 		}
 		return value, found, err
